@@ -35,14 +35,19 @@ def calcScore (a b : Str) (partialM : Bool) : Nat × Nat :=
     | none => (0, 1)
     | some (i, sc) => (2 * sc * i, mx * (mx * (mx + 1) - (mx - mn) * (mx - mn + 1)))
 def qGe (r s : Nat × Nat) : Bool := r.1 * s.2 ≥ s.1 * r.2
-/-- `find_best_match`: index of the chosen item -/
-def findBest (abbr : Str) (items : List Str) (minScore : Nat × Nat) (partialM : Bool) : Option Nat :=
+def qGt (r s : Nat × Nat) : Bool := r.1 * s.2 > s.1 * r.2
+/-- `find_best_match`: index of the chosen item. The code computes the scores in IEEE doubles and keeps a candidate when
+    `score >= max_score`: between two candidates whose EXACT scores are equal, the winner depends on the rounding of the two double
+    computations (`anuim` scores 9/35 against both `anim` and `animdur`; as doubles 0.2571428571428572 and 0.2571428571428571). The
+    model computes exact fractions; `tieFirst` selects which of two exactly tied candidates wins (false: the later one, as `>=` on
+    equal numbers; true: the earlier one). The drivers run both and report both outcomes when they differ. -/
+def findBest (abbr : Str) (items : List Str) (minScore : Nat × Nat) (partialM : Bool) (tieFirst : Bool := false) : Option Nat :=
   let rec go : List Str → Nat → (Nat × Nat) → Option Nat → Option Nat
     | [], _, mxs, best => if qGe mxs minScore then best else none
     | k :: ks, i, mxs, best =>
       let sc := calcScore abbr k partialM
       if sc.1 == sc.2 then some i                                       -- score == 1
-      else if sc.1 != 0 && qGe sc mxs then go ks (i + 1) sc (some i)
+      else if sc.1 != 0 && (if tieFirst then qGt sc mxs else qGe sc mxs) then go ks (i + 1) sc (some i)
       else go ks (i + 1) mxs best
   go items 0 (0, 1) none
 
@@ -164,6 +169,7 @@ structure SOpts where
   baseIndent : Str := []
   indent : Str := [9]
   scope : Option Str := none          -- config.context['name'] when it is one of the `@@…` scopes that only filter
+  tieFirst : Bool := false            -- which of two EXACTLY tied fuzzy candidates wins (see `findBest`); not an option of the code
 
 /-! ### color.py / frac -/
 def natToStr (n : Nat) : Str := (toString n).toList.map Char.toNat
@@ -212,15 +218,15 @@ def resolveKeyword (sn : Array Snippet) (o : SOpts) (kw : Str) (snip : Option Na
   let fromSnippet : Option VItem := do
     let i ← snip
     let s := sn[i]!
-    match findBest kw (s.keywords.map (·.1)) minScore false with
+    match findBest kw (s.keywords.map (·.1)) minScore false o.tieFirst with
     | some k => some (kwToItem ((s.keywords.getD k ([], .lit ⟨.ws, none, 0⟩)).2))
     | none =>
       s.deps.findSome? fun d =>
         let ds := sn[d]!
-        (findBest kw (ds.keywords.map (·.1)) minScore false).map fun k => kwToItem ((ds.keywords.getD k ([], .lit ⟨.ws, none, 0⟩)).2)
+        (findBest kw (ds.keywords.map (·.1)) minScore false o.tieFirst).map fun k => kwToItem ((ds.keywords.getD k ([], .lit ⟨.ws, none, 0⟩)).2)
   match fromSnippet with
   | some v => some v
-  | none => (findBest kw o.keywords minScore false).map fun k => .tok ⟨.literal (o.keywords.getD k []), none, 0⟩
+  | none => (findBest kw o.keywords minScore false o.tieFirst).map fun k => .tok ⟨.literal (o.keywords.getD k []), none, 0⟩
 -- NB: Literal(ref) created by the resolver has start = end = None; `stop := 0` is a placeholder, see `endOf`.
 
 def resolveValueKeywords (sn : Array Snippet) (o : SOpts) (snip : Option Nat) (vals : List (List VItem)) : List (List VItem) :=
@@ -345,7 +351,7 @@ def resolveNode (sn : Array Snippet) (o : SOpts) (node : Node) : Except Err Node
         if nm.isEmpty then pure node else
         -- `get_snippets_for_scope`: `@@section` keeps raw snippets only, `@@property` property snippets only
         let cands := sn.toList.zipIdx.filter (fun p => scopeOK o p.1)
-        match findBest nm (cands.map (·.1.key)) (0, 1) true with
+        match findBest nm (cands.map (·.1.key)) (0, 1) true o.tieFirst with
         | none => pure node
         | some ci =>
           let si := (cands.getD ci (default, 0)).2
